@@ -351,6 +351,21 @@ pub(crate) struct Ctx {
 thread_local! {
     pub(crate) static CTX: RefCell<Option<Ctx>> = const { RefCell::new(None) };
     static LAST_PANIC: RefCell<Option<(String, String)>> = const { RefCell::new(None) };
+    static QUIET: std::cell::Cell<u32> = const { std::cell::Cell::new(0) };
+}
+
+/// Run `f` with panics on this thread recorded silently (used around calls into the code
+/// under test made by oracles outside a simulation).
+pub fn quiet_panics<R>(f: impl FnOnce() -> R) -> R {
+    QUIET.with(|q| q.set(q.get() + 1));
+    struct Guard;
+    impl Drop for Guard {
+        fn drop(&mut self) {
+            QUIET.with(|q| q.set(q.get().saturating_sub(1)));
+        }
+    }
+    let _g = Guard;
+    f()
 }
 
 /// Payload used to unwind simulated threads at shutdown / node crash. Never a "panic".
@@ -396,7 +411,17 @@ pub fn install_panic_hook() {
                 .location()
                 .map(|l| format!("{}:{}:{}", l.file(), l.line(), l.column()))
                 .unwrap_or_else(|| "<unknown>".into());
-            if in_sim() {
+            if in_sim() || QUIET.with(|q| q.get()) > 0 {
+                // innermost frame inside the repository under test, for attribution
+                let loc = if loc.starts_with("/repo/") {
+                    loc
+                } else {
+                    let bt = std::backtrace::Backtrace::force_capture().to_string();
+                    match bt.lines().map(|l| l.trim()).find(|l| l.starts_with("at /repo/")) {
+                        Some(l) => format!("{} via {}", loc, l.trim_start_matches("at ")),
+                        None => loc,
+                    }
+                };
                 LAST_PANIC.with(|p| *p.borrow_mut() = Some((msg, loc)));
             } else {
                 default(info);
@@ -524,12 +549,14 @@ impl Inner {
             })
         };
         for t in &self.threads {
+            // a stalled node's threads become eligible only when the stall ends
+            let floor = if self.node_stalled(t.node) { self.nodes[t.node as usize].stalled_until } else { 0 };
             match t.state {
-                TState::Sleeping { until } => upd(until),
-                TState::RecvBlocked { deadline: Some(d), .. } => upd(d),
+                TState::Sleeping { until } => upd(until.max(floor)),
+                TState::RecvBlocked { deadline: Some(d), .. } => upd(d.max(floor)),
                 TState::Runnable => {
-                    if self.node_stalled(t.node) {
-                        upd(self.nodes[t.node as usize].stalled_until)
+                    if floor > 0 {
+                        upd(floor)
                     }
                 }
                 _ => {}
@@ -579,6 +606,10 @@ impl Inner {
                 Some(t) => {
                     if t > self.now {
                         self.now = t;
+                    } else {
+                        // nothing became runnable although an event was due: cannot happen by
+                        // construction; move time forward rather than spin
+                        self.now += 1;
                     }
                 }
                 None => return None,
@@ -890,4 +921,9 @@ pub fn run<F: FnOnce() + Send + 'static>(cfg: SimConfig, root: F) -> RunResult {
         fingerprint: g.fingerprint,
         root_panic: g.root_panic.take(),
     }
+}
+
+/// (message, location) of the last panic seen by the hook on this thread, if any.
+pub fn take_last_panic() -> Option<(String, String)> {
+    LAST_PANIC.with(|p| p.borrow_mut().take())
 }
